@@ -99,12 +99,16 @@ impl Sanitizer {
 
         result = self.replace_non_alphanumeric(&result);
 
-        if !self.keep_zeros {
-            result = self.remove_leading_zeros(&result);
+        // Truncate before stripping zeros: a cut can expose a new all-digit segment ("ab.01x" -> "ab.01").
+        // The cut is made on a character boundary (the text may be non-ASCII when no separator is set).
+        if let Some(max_len) = self.max_length
+            && let Some((cut, _)) = result.char_indices().nth(max_len)
+        {
+            result.truncate(cut);
         }
 
-        if let Some(max_len) = self.max_length {
-            result.truncate(max_len);
+        if !self.keep_zeros {
+            result = self.remove_leading_zeros(&result);
         }
 
         if let Some(sep) = &self.separator {
